@@ -60,8 +60,16 @@ def run_models(n, seed, verbose=False):
                     me = self.key
                     if dst[0] != me[0] and d < L_ns:
                         d = L_ns + d          # cross-partition: respect the declared minimum latency
-                    return [Event(time=Instant(ev.time.nanoseconds + d), event_type="tok", target=ents[dst], daemon=tk["daemon"],
-                                  context={"metadata": {"tid": tid, "hop": hop + 1}})]
+                    out = [Event(time=Instant(ev.time.nanoseconds + d), event_type="tok", target=ents[dst], daemon=tk["daemon"],
+                                 context={"metadata": {"tid": tid, "hop": hop + 1}})]
+                    if (tid + hop) % 2 == 0:
+                        # a timeout armed and disarmed in the same handler: a CANCELLED local event stays in the heap
+                        # (sometimes as the last entry before a window barrier) and must simply be skipped
+                        dead = Event(time=Instant(ev.time.nanoseconds + [L_ns // 2, L_ns - 1, L_ns, 3 * L_ns][(tid + 2 * hop) % 4]),
+                                     event_type="dead", target=self, context={"metadata": {"tid": tid, "hop": -1}})
+                        dead.cancel()
+                        out.append(dead)
+                    return out
             for k in names:
                 e = Node(f"n{k[0]}_{k[1]}")
                 e.key = k
@@ -109,7 +117,62 @@ def run_models(n, seed, verbose=False):
         if len(bad) > 3:
             break
     rb = run_models_b(max(10, n // 5), seed, verbose)
-    return {"evaluations": n + rb["evaluations"], "violations": (bad + rb["violations"])[:6]}
+    rc = run_models_c(3 if n <= 200 else 8, seed, verbose)
+    return {"evaluations": n + rb["evaluations"] + rc["evaluations"], "violations": (bad + rb["violations"] + rc["violations"])[:6]}
+
+
+def run_models_c(n, seed, verbose=False):
+    """third family: FAN-IN under real thread overlap - two free-running producer partitions (per-partition event ids run in
+    parallel and coincide) send many readings to one collector partition within the same windows; every reading must
+    arrive exactly once.  Depends on OS thread scheduling: a loss shows with high probability per run, not with certainty."""
+    from happysimulator import Entity, Event, Instant
+    from happysimulator.parallel import ParallelSimulation, PartitionLink, SimulationPartition
+    bad = []
+    for m in range(n):
+        count = 40000
+
+        class Ticker(Entity):
+            def __init__(self, name, period_ns):
+                super().__init__(name)
+                self.period_ns, self.sent, self.collector = period_ns, 0, None
+
+            def handle_event(self, ev):
+                if self.sent >= count:
+                    return None
+                self.sent += 1
+                t = ev.time.nanoseconds
+                return [Event(time=Instant(t + 500_000_000), event_type="Reading", target=self.collector,
+                              context={"metadata": {"src": self.name, "k": self.sent}}),
+                        Event(time=Instant(t + self.period_ns), event_type="Tick", target=self)]
+
+        class Collector(Entity):
+            def __init__(self, name):
+                super().__init__(name)
+                self.got = []
+
+            def handle_event(self, ev):
+                md = ev.context["metadata"]
+                self.got.append((md["src"], md["k"]))
+                return None
+        a, b, c = Ticker("a", 100_000), Ticker("b", 130_000 + 1000 * ((seed + m) % 7)), Collector("c")
+        a.collector = b.collector = c
+        ps = ParallelSimulation([SimulationPartition("A", entities=[a]), SimulationPartition("B", entities=[b]),
+                                 SimulationPartition("C", entities=[c])], end_time=Instant.from_seconds(100.0),
+                                links=[PartitionLink("A", "C", min_latency=0.5), PartitionLink("B", "C", min_latency=0.5)])
+        ps.schedule(Event(time=Instant.Epoch, event_type="Tick", target=a), partition="A")
+        ps.schedule(Event(time=Instant.Epoch, event_type="Tick", target=b), partition="B")
+        try:
+            ps.run()
+        except Exception as ex:      # noqa: BLE001
+            bad.append({"case": f"family-c model {m}: parallel run raised {type(ex).__name__}: {ex}"})
+            continue
+        want = 2 * count
+        if len(c.got) != want or len(set(c.got)) != want:
+            bad.append({"case": "fan-in-readings-lost-or-duplicated", "family": "c", "model": m, "received": len(c.got),
+                        "distinct": len(set(c.got)), "sent": want})
+            if verbose:
+                print(bad[-1])
+    return {"evaluations": n, "violations": bad}
 
 
 def run_models_b(n, seed, verbose=False):
